@@ -54,7 +54,8 @@ def run(ctx, rep):
               and x.id in cfg.reachable(n.id, [h.id for h in cfg.live_nodes() if h.kind == "for"])]
         good = tgt is not None and len(wb) >= 1 and utext(c.args[1]) == kv[1]
         if good:
-            v = " ".join(utext(wb[0].ast.value).split())
+            from sa.kinds import resolve_local
+            v = " ".join(utext(resolve_local(pt, wb[0].ast.value)).split())   # the value, or the local that names it
             good = v in ("max(%s - %s, 0.0)" % (kv[1], tgt), "max(%s - %s, 0)" % (kv[1], tgt))
             gs = [(utext(g.exprs[0]), pol) for g, pol in cfg.guards(wb[0].id)]
             good = good and (tgt, True) in gs
